@@ -1,6 +1,7 @@
 //! External harness crate: path dependencies on the crates of /repo, no source hooks needed.
 //! Bodies live in /verif/kani/bodies/*.rs, generic over the nondeterminism source (`sup::Src`).
 #![allow(clippy::all)]
+#![recursion_limit = "512"]
 #![cfg_attr(kani, feature(allocator_api))]
 #[cfg(kani)]
 extern crate alloc;
@@ -25,6 +26,9 @@ pub mod c12 {
 }
 pub mod c13 {
     include!(concat!(env!("PRECIS_VERIF_DIR"), "/kani/bodies/c13.rs"));
+}
+pub mod c14 {
+    include!(concat!(env!("PRECIS_VERIF_DIR"), "/kani/bodies/c14.rs"));
 }
 pub mod c18 {
     include!(concat!(env!("PRECIS_VERIF_DIR"), "/kani/bodies/c18.rs"));
